@@ -71,3 +71,131 @@ Print Assumptions C12_isdist1.
 Example C12_ex : lev_nbrs [0;1]%N [0;0;1]%N =
   [[0;1]; [0;0]; [1;0;1]; [0;1;1]; [0;0;0]; [0;0;0;1]; [1;0;0;1]; [0;1;0;1]; [0;0;1;1]; [0;0;1;0]]%N.
 Proof. vm_compute. reflexivity. Qed.
+
+(* ---- nndist_hamming and its enumeration loops (_isdist2_hamming, _isdist3_hamming): algorithm-mirroring model, proved exact ---- *)
+(* C12 (extension) - the enumeration loops of _isdist2_hamming / _isdist3_hamming are exact and
+   nndist_hamming returns the nearest equal-length Hamming distance capped at maxdist. *)
+From Coq Require Import List NArith Bool Arith Lia.
+From PV Require Import lib.Edits lib.Str model.Nbrs model.Nndist proofs.NndistP.
+Import ListNotations.
+
+(* the strings the loops visit: exactly those at Hamming distance k whose changed positions carry alphabet letters *)
+Theorem C12_subs : forall al x y,
+  (In y (subs1 al x) <-> sham x y = Some 1 /\ subst_letters_in al x y) /\
+  (In y (subs2 al x) <-> sham x y = Some 2 /\ subst_letters_in al x y) /\
+  (In y (subs3 al x) <-> sham x y = Some 3 /\ subst_letters_in al x y).
+Proof. intros. split; [apply subs1_spec|split; [apply subs2_spec|apply subs3_spec]]. Qed.
+Print Assumptions C12_subs.
+
+Theorem C12_subst_letters_in_meaning : forall al x y,
+  subst_letters_in al x y <->
+  length x = length y /\
+  (forall i a b, nth_error x i = Some a -> nth_error y i = Some b -> a <> b -> In b al).
+Proof. exact subst_letters_in_nth. Qed.
+Print Assumptions C12_subst_letters_in_meaning.
+
+Theorem C12_isdist2 : forall al x ref,
+  isdist2_ham al x ref = true <->
+  exists r, In r ref /\ sham x r = Some 2 /\ subst_letters_in al x r.
+Proof. exact isdist2_ham_spec. Qed.
+Print Assumptions C12_isdist2.
+
+Theorem C12_isdist3 : forall al x ref,
+  isdist3_ham al x ref = true <->
+  exists r, In r ref /\ sham x r = Some 3 /\ subst_letters_in al x r.
+Proof. exact isdist3_ham_spec. Qed.
+Print Assumptions C12_isdist3.
+
+(* nearest x ref: the least sham x r over the equal-length members r of ref, 4 when there is none *)
+Theorem C12_nearest_meaning : forall x ref,
+  (forall d, nearest_opt x ref = Some d <->
+     (exists r, In r ref /\ sham x r = Some d) /\
+     (forall r h, In r ref -> sham x r = Some h -> d <= h)) /\
+  (nearest_opt x ref = None <-> forall r, In r ref -> sham x r = None) /\
+  nearest x ref = match nearest_opt x ref with Some d => d | None => 4 end.
+Proof.
+  intros. split; [intros d; apply nearest_opt_some|split; [apply nearest_opt_none|reflexivity]].
+Qed.
+Print Assumptions C12_nearest_meaning.
+
+Theorem C12_nndist : forall al maxdist x ref,
+  1 <= maxdist <= 4 ->
+  (forall r, In r ref -> subst_letters_in al x r \/ sham x r = None) ->
+  nndist_ham al maxdist x ref = Some (Nat.min maxdist (nearest x ref)).
+Proof. exact nndist_ham_spec. Qed.
+Print Assumptions C12_nndist.
+
+(* the same under the simpler hypothesis: every letter of every reference is in the alphabet *)
+Theorem C12_nndist_letters : forall al maxdist x ref,
+  1 <= maxdist <= 4 ->
+  (forall r, In r ref -> forall c, In c r -> In c al) ->
+  nndist_ham al maxdist x ref = Some (Nat.min maxdist (nearest x ref)).
+Proof. intros al maxdist x ref Hmd Hl. apply nndist_ham_spec; [exact Hmd|now apply ref_over_letters]. Qed.
+Print Assumptions C12_nndist_letters.
+
+(* the cap: the result is exact below maxdist and maxdist itself from there on; it never exceeds maxdist,
+   is a lower bound of every equal-length distance, and is attained when below maxdist *)
+Theorem C12_nndist_cap : forall al maxdist x ref,
+  1 <= maxdist <= 4 ->
+  (forall r, In r ref -> subst_letters_in al x r \/ sham x r = None) ->
+  (nearest x ref < maxdist -> nndist_ham al maxdist x ref = Some (nearest x ref)) /\
+  (maxdist <= nearest x ref -> nndist_ham al maxdist x ref = Some maxdist) /\
+  (forall d, nndist_ham al maxdist x ref = Some d ->
+     d <= maxdist /\
+     (forall r h, In r ref -> sham x r = Some h -> d <= h) /\
+     (d < maxdist -> exists r, In r ref /\ sham x r = Some d)).
+Proof.
+  intros al maxdist x ref Hmd Hover.
+  destruct (nndist_ham_cases al maxdist x ref Hmd Hover) as [H1 H2].
+  split; [exact H1|split; [exact H2|]]. intros d. now apply nndist_ham_meaning.
+Qed.
+Print Assumptions C12_nndist_cap.
+
+(* outside 1..4: maxdist > 4 is refused (NotImplementedError); maxdist = 0 is not special-cased
+   by the code and behaves like maxdist = 4 *)
+Theorem C12_nndist_outside : forall al x ref,
+  (forall maxdist, 4 < maxdist -> nndist_ham al maxdist x ref = None) /\
+  nndist_ham al 0 x ref = nndist_ham al 4 x ref.
+Proof. intros. split; [intros; now apply nndist_ham_unsupported|apply nndist_ham_0]. Qed.
+Print Assumptions C12_nndist_outside.
+
+(* the modelled loops agree with the specification-level fold api_nndist_ham of extract/Api.v
+   that the C12 correspondence run compares the implementation with *)
+Theorem C12_nndist_is_spec_fold : forall al maxdist x ref,
+  1 <= maxdist <= 4 ->
+  (forall r, In r ref -> subst_letters_in al x r \/ sham x r = None) ->
+  nndist_ham al maxdist x ref =
+  Some (fold_left (fun m r => match sham x r with Some h => Nat.min m h | None => m end) ref maxdist).
+Proof. exact nndist_ham_fold. Qed.
+Print Assumptions C12_nndist_is_spec_fold.
+
+(* alphabet A C D, x = AAA; references: one of another length, one at distance 3, one at distance 2 *)
+Example C12x_ex_subs2 : subs2 [65;67;68]%N [65;65;65]%N =
+  [[67;67;65]; [67;68;65]; [67;65;67]; [67;65;68];
+   [68;67;65]; [68;68;65]; [68;65;67]; [68;65;68];
+   [65;67;67]; [65;67;68]; [65;68;67]; [65;68;68]]%N.
+Proof. vm_compute. reflexivity. Qed.
+
+Example C12x_ex_nndist :
+  let al := [65;67;68]%N in let x := [65;65;65]%N in
+  let ref := [[65;65]; [67;68;67]; [65;68;67]]%N in
+  (forall r, In r ref -> forall c, In c r -> In c al) /\
+  map (fun md => nndist_ham al md x ref) [0;1;2;3;4;5] = [Some 2; Some 1; Some 2; Some 2; Some 2; None] /\
+  nndist_ham al 4 x [[65;65]; [67;68;67]]%N = Some 3 /\
+  nndist_ham al 4 x [[65;65]]%N = Some 4 /\
+  nearest x ref = 2 /\ nearest x [[65;65]]%N = 4 /\
+  isdist2_ham al x ref = true /\ isdist3_ham al x ref = true /\
+  isdist2_ham al x [[67;68;67]]%N = false /\
+  length (subs3 al x) = 8.
+Proof.
+  cbv zeta. split.
+  - intros r Hr c Hc. simpl in Hr.
+    repeat (destruct Hr as [<-|Hr]; [simpl in Hc; intuition auto|]); try contradiction;
+      simpl; intuition auto.
+  - vm_compute. repeat split; reflexivity.
+Qed.
+
+(* a letter outside the alphabet: the loops cannot reach the reference (the hypothesis of C12_nndist is needed) *)
+Example C12x_ex_outside :
+  nndist_ham [65;67;68]%N 4 [65;65;65]%N [[65;65;90]]%N = Some 4 /\ nearest [65;65;65]%N [[65;65;90]]%N = 1.
+Proof. vm_compute. split; reflexivity. Qed.
